@@ -196,4 +196,65 @@ theorem dropAt_length : ∀ (bs : List Block) (k : Nat) (idx : List Nat), (dropA
   | _ :: _, 0, _ => rfl
   | _ :: bs, k + 1, idx => by simp [dropAt, dropAt_length bs k idx]
 
+/-! ### `removeLines` (what the driver executes) in terms of `dropAt` -/
+
+/-- the block `remove_lines` works on: block 0, or the first block called `data_specifier` -/
+def removeTarget (bcs : List (Block × List Comment)) (spec : Option Word) : Option Nat :=
+  match spec with
+  | none => some 0
+  | some s => specifierId ((blocksOf bcs).map Block.name) s
+
+theorem blocksOf_length (bcs : List (Block × List Comment)) : (blocksOf bcs).length = bcs.length := by simp [blocksOf]
+theorem comsOf_length (bcs : List (Block × List Comment)) : (comsOf bcs).length = bcs.length := by simp [comsOf]
+
+/-- `removeLines` spelled out: every outcome of the function the driver runs -/
+theorem removeLines_cases (txt : List Char) (idx : List Nat) (spec : Option Word) (nc : Bool) :
+    (∀ e, readStarC txt = .error e → removeLines txt idx spec nc = .error (.sel (.parse e))) ∧
+    (∀ bcs, readStarC txt = .ok bcs → removeTarget bcs spec = none → removeLines txt idx spec nc = .error .notFound) ∧
+    (∀ bcs k, readStarC txt = .ok bcs → removeTarget bcs spec = some k → ∀ hk : k < bcs.length,
+      ((∀ i ∈ idx, i < bcs[k].1.rows.length) →
+        removeLines txt idx spec nc = .ok (printAllC nc (comsOf bcs) (dropAt (blocksOf bcs) k idx)) ∧
+        printStarC nc (comsOf bcs) (dropAt (blocksOf bcs) k idx) = some (printAllC nc (comsOf bcs) (dropAt (blocksOf bcs) k idx))) ∧
+      (¬ (∀ i ∈ idx, i < bcs[k].1.rows.length) → removeLines txt idx spec nc = .error .rowIndex)) := by
+  refine ⟨?_, ?_, ?_⟩
+  · intro e he
+    unfold removeLines; simp [he]
+  · intro bcs hb ht
+    unfold removeLines
+    cases spec with
+    | none => simp [removeTarget] at ht
+    | some sp => simp only [removeTarget] at ht; simp [hb, ht]
+  · intro bcs k hb ht hk
+    have hlen : (comsOf bcs).length = (dropAt (blocksOf bcs) k idx).length := by
+      rw [dropAt_length, comsOf_length, blocksOf_length]
+    have hp : printStarC nc (comsOf bcs) (dropAt (blocksOf bcs) k idx) = some (printAllC nc (comsOf bcs) (dropAt (blocksOf bcs) k idx)) := by
+      unfold printStarC; simp [hlen]
+    have key : removeLines txt idx spec nc =
+        if idx.all (fun x => decide (x < bcs[k].1.rows.length)) = true then
+          .ok (printAllC nc (comsOf bcs) (dropAt (blocksOf bcs) k idx)) else .error .rowIndex := by
+      unfold removeLines
+      cases spec with
+      | none =>
+        simp only [removeTarget, Option.some.injEq] at ht
+        subst ht
+        simp only [hb, List.getElem?_eq_getElem hk, hp]
+
+      | some sp =>
+        simp only [removeTarget] at ht
+        simp only [hb, ht, List.getElem?_eq_getElem hk, hp]
+
+    constructor
+    · intro hi
+      refine ⟨?_, hp⟩
+      have : idx.all (fun x => decide (x < bcs[k].1.rows.length)) = true := by
+        rw [List.all_eq_true]; intro i hi'; simpa using hi i hi'
+      rw [key, if_pos this]
+    · intro hi
+      have : ¬ idx.all (fun x => decide (x < bcs[k].1.rows.length)) = true := by
+        intro h
+        apply hi
+        intro i hi'
+        simpa using (List.all_eq_true.1 h) i hi'
+      rw [key, if_neg this]
+
 end CryoCat.C02
